@@ -81,8 +81,9 @@ def _seqs(kind, items, maxsize=2):
     return out
 
 
-def containers1():
-    return _seqs(T, A8) + _seqs(L, A8) + _sets(SET, A8) + _sets(FSET, A8) + _dicts(A8, V3)
+def containers1(tier='quick'):
+    n = 3 if tier == 'thorough' else 2
+    return _seqs(T, A8, n) + _seqs(L, A8, n) + _sets(SET, A8, n) + _sets(FSET, A8, n) + _dicts(A8, V3)
 
 
 def containers2(tier):
@@ -346,6 +347,10 @@ def ev_terms(tier):
             for b in small:
                 d2.append(O('ev.' + name, a, b))
                 d2.append(O('ev.' + name, b, a))
+    if tier == 'thorough':  # siblings: binary nodes over pairs of depth-1 terms that share a child
+        for name in COMM + ORDERED[:1]:
+            for a, b in itertools.combinations(d1[:60], 2):
+                d2.append(O('ev.' + name, FMS(a, b)) if name in COMM else O('ev.' + name, a, b))
     roots = []
     for a in leaves + d1:
         roots += [O('ev.Sum', a), O('ev.InsertAxis', a, C2), O('ev.InsertAxis', a, c(3)), O('ev.Tuple', T(a)), O('ev.Diagonalize', a)]
@@ -387,12 +392,12 @@ def meshes():
 
 # ------------------------------------------------------------------ assembly
 
-BLOCK = 1500
+BLOCK = {'quick': 1500, 'thorough': 2500}
 
 
 @functools.lru_cache(None)
 def corpus(tier):
-    fams = [('atom', atoms()), ('cont1', containers1()), ('ndarray', ndarrays()), ('arraydata', arraydatas()), ('frozen', frozens()), ('class', classes()),
+    fams = [('atom', atoms()), ('cont1', containers1(tier)), ('ndarray', ndarrays()), ('arraydata', arraydatas()), ('frozen', frozens()), ('class', classes()),
             ('geometry', geometry()), ('solver', solvers() + confusions()), ('mesh', meshes())]
     e1, e2 = ev_terms(tier)
     fams += [('eval1', e1), ('eval2', e2), ('cont2', containers2(tier))]
@@ -417,7 +422,7 @@ def blocks(tier):
     for v in vals:
         byfam.setdefault(v['fam'], []).append(v['id'])
     for fam, ids in byfam.items():
-        n = (len(ids) + BLOCK - 1) // BLOCK
+        n = (len(ids) + BLOCK[tier] - 1) // BLOCK[tier]
         size = (len(ids) + n - 1) // n
         for i in range(n):
             out.append(('{}/{}'.format(fam, i), ids[i * size:(i + 1) * size]))
